@@ -708,6 +708,13 @@ func c18Configs(tier string) []C18Cfg {
 	for _, p := range [][]string{{"W0", "Add2"}, {"R", "Add2"}, {"Add2", "Rm1"}, {"Add2", "Mon0"}, {"Add2", "Add3"}, {"Add2", "Add2"}, {"Snap", "Add2"}} {
 		add("rw2", p...)
 	}
+	// the last replica leaves (the frontend is shut down on that path)
+	for _, p := range [][]string{{"Rm0", "Rm0"}, {"Rm0", "Mon0"}, {"Rm0", "W0"}, {"Rm0", "R"}, {"Mon0", "W0"}, {"Rm0", "Err0"}} {
+		add("rf1", p...)
+	}
+	for _, p := range [][]string{{"Rm0", "Rm1"}, {"Rm0", "Mon1"}, {"Mon0", "Mon1"}} {
+		add("rf2", p...)
+	}
 	if tier == "thorough" {
 		add("rw3", "W0", "Rm1", "Mon2")
 		add("rw3", "W0", "R", "Mon1")
